@@ -1,6 +1,6 @@
 """Origin specs (plain data) and their realisation as pyoak origins.
 
-spec ::= ["no"] | ["code", src, lo, hi] | ["gen", src] | ["xml", src, path]
+spec ::= ["no"] | ["code", src, lo, hi] | ["gen", src] | ["xml", src, path] | ["whole", src]
        | ["multi", [spec, spec, ...]]          (flat: members are never "multi"/"no")
 
 Sources 0..2 are in-memory text sources with explicit uris and a fixed text, source 3 is a
@@ -70,6 +70,10 @@ def build_origin(spec: list, sources: list[Any], fresh: bool = False) -> Any:
         return CodeOrigin(source=sources[s], position=make_range(source_text(s), lo, hi))
     if kind == "gen":
         return GeneratedCodeOrigin(source=sources[spec[1]])
+    if kind == "whole":  # the plain base class with the whole-source position singleton
+        from pyoak.origin import EntireSourcePosition, Origin
+
+        return Origin(source=sources[spec[1]], position=EntireSourcePosition())
     if kind == "xml":
         return XMLFileOrigin(source=sources[spec[1]], position=XMLPath(spec[2]))
     if kind == "multi":
@@ -106,6 +110,8 @@ def origin_spec_of(o: Any, sources: list[Any]) -> list:
         return ["code", src_index(o.source), o.position.start.index, o.position.end.index]
     if type(o) is O.XMLFileOrigin:
         return ["xml", src_index(o.source), o.position.xpath]
+    if type(o) is O.Origin and type(o.position) is O.EntireSourcePosition:
+        return ["whole", src_index(o.source)]
     if type(o) is O.MultiOrigin:
         return ["multi", [origin_spec_of(m, sources) for m in o.origins]]
     return ["other", type(o).__name__]
@@ -127,7 +133,8 @@ def st_simple_origin(max_index: int = 40):
     xml = st.tuples(st.integers(0, 3), st.sampled_from(["/a", "/a/b[1]", "/a/@x", "//c"])).map(
         lambda t: ["xml", t[0], t[1]]
     )
-    return st.one_of(code, code, gen, xml)
+    whole = st.integers(0, 3).map(lambda s: ["whole", s])
+    return st.one_of(code, code, code, gen, gen, xml, xml, whole)
 
 
 def st_origin(max_index: int = 40, allow_no: bool = True):
